@@ -57,11 +57,12 @@ def applySet (c : Claims) (op : SetOp) : Claims × Outcome Unit :=
       match l with
       | none => ({ c with noSw := some 1, sw := .nilIface }, .ok ())
       | some vals =>
-        let c1 := match c.sw with | .nilIface => { c with sw := .cont none } | _ => c
+        -- the new list is built aside and attached only on success (fix for D11): a refused list leaves
+        -- the claims-set, the nil container included, as it was
         match replaceVals vals with
-        | .ok nv => ({ c1 with sw := .cont nv, noSw := none }, .ok ())
-        | .err m => (c1, .err m)
-        | .panic s => (c1, .panic s)
+        | .ok nv => ({ c with sw := .cont nv, noSw := none }, .ok ())
+        | .err m => (c, .err m)
+        | .panic s => (c, .panic s)
     | .p2 =>
       match l with
       | none => (c, .err eWrongSyntax)   -- the claim is mandatory: a nil list is not a value (fix for D9)
